@@ -1028,7 +1028,11 @@ class BasisPoint(Op):
 @register
 class BasisGetDofs(Op):
     name = "basis_get_dofs"
+    out = "dview"
     weight = 2.0
+
+    def meta(self, a, S):
+        return {"basis": a["basis"]["ref"]}
 
     def gen(self, rng, S):
         b = S.pick(rng, "basis")
@@ -1074,6 +1078,70 @@ class BasisGetDofs(Op):
         if f == "sset":
             return b.get_dofs(elements=set(a["s"]))
         return b.get_dofs("no-such-boundary")
+
+
+@register
+class DofsViewOps(Op):
+    """Derived views and index arrays of a DofsView the caller keeps."""
+    name = "dofs_view_ops"
+    weight = 1.5
+
+    def gen(self, rng, S):
+        v = S.pick(rng, "dview")
+        if v is None:
+            return None
+        b = S.slots[v]["basis"]
+        a = {"view": ref(v), "basis": ref(b), "seed": rng.randrange(1 << 30),
+             "how": rng.choice(["keep", "drop", "all", "all-key", "flatten",
+                                "or", "sort", "parts", "complement", "array",
+                                "len", "keep-drop"])}
+        o = S.pick(rng, "dview", lambda x: x["basis"] == b)
+        if o is not None:
+            a["other"] = ref(o)
+        return a
+
+    @staticmethod
+    def _one(v):
+        if isinstance(v, dict):
+            return v[sorted(v)[0]] if v else None
+        return v
+
+    def apply(self, W, a):
+        v = self._one(W[a["view"]["ref"]])
+        b = W[a["basis"]["ref"]]
+        if v is None:
+            return {"skipped": "empty dict of views"}
+        r = random.Random(a["seed"])
+        names = sorted(set(n for n in v.obj.element.dofnames if n))
+        some = [n for n in names if r.random() < 0.5] or names[:1]
+        h = a["how"]
+        if h == "keep":
+            return v.keep(some)
+        if h == "drop":
+            return v.drop(some)
+        if h == "keep-drop":
+            return v.keep(names).drop(some)
+        if h == "all":
+            return v.all()
+        if h == "all-key":
+            return v.all(some)
+        if h == "flatten":
+            return v.flatten()
+        if h == "or":
+            o = self._one(W[a["other"]["ref"]]) if "other" in a else v
+            import warnings
+            with warnings.catch_warnings():
+                warnings.simplefilter("ignore")
+                return (v | (o if o is not None else v))
+        if h == "sort":
+            return v.sort()
+        if h == "parts":
+            return [v.nodal, v.facet, v.edge, v.interior]
+        if h == "complement":
+            return b.complement_dofs(v)
+        if h == "array":
+            return np.asarray(v)
+        return len(v)
 
 
 @register
@@ -1241,11 +1309,20 @@ class BCHelper(Op):
                 a["b"] = ref(M)
         if xv is not None and rng.random() < 0.5:
             a["x"] = ref(xv)
+        dv = S.pick(rng, "dview", lambda x: x["basis"] == b)
+        if dv is not None and rng.random() < 0.35:
+            # a DofsView (or dict of them) the caller keeps
+            a["Dview"] = ref(dv)
         return a
 
     @staticmethod
-    def _dofs(b, a):
+    def _dofs(b, a, W=None):
         how = a["D"]
+        if "Dview" in a and W is not None:
+            v = W[a["Dview"]["ref"]]
+            if not (isinstance(v, dict) and not v) and \
+                    len(np.asarray(DofsViewOps._one(v))) < b.N:
+                return {"D": v}
         if how == "get_dofs":
             return {"D": b.get_dofs()}
         ix = np.sort(resolve_subset(b.N, dict(a["sub"], dtype="int32")))
@@ -1261,7 +1338,7 @@ class BCHelper(Op):
         from skfem import condense, enforce, penalize
         A = W[a["A"]["ref"]]
         b = W[a["basis"]["ref"]]
-        kw = self._dofs(b, a)
+        kw = self._dofs(b, a, W)
         if "b" in a:
             kw["b"] = W[a["b"]["ref"]]
         if "x" in a:
